@@ -18,7 +18,9 @@
 package version
 
 import (
+	"errors"
 	"fmt"
+	"io"
 	"os"
 	"path/filepath"
 	"sync"
@@ -248,6 +250,14 @@ func (vs *storeVersionSet) recover() error {
 	for reader.Next() {
 		record, err := reader.Read()
 		if err != nil {
+			if errors.Is(err, io.ErrUnexpectedEOF) {
+				// the last edit log is incomplete(process crashed when writing it), the commit of this edit log
+				// was not finished, so ignore it. all edit logs before it are recovered.
+				versionLogger.Warn("ignore incomplete edit log at the tail of manifest file",
+					logger.String("path", vs.storePath),
+					logger.String("manifest", manifestPath))
+				break
+			}
 			return fmt.Errorf("recover data from manifest file error:%s", err)
 		}
 		editLog := newEmptyEditLogFunc()
